@@ -237,7 +237,9 @@ fn json_diff(path: &str, a: &serde_json::Value, b: &serde_json::Value, out: &mut
     }
 }
 
-fn res_of_output(format: &str, out: &[u8]) -> Res {
+/// `region`: where the harness itself put the manifest (placeholder flow); otherwise the store is located in
+/// the output (contiguous stores are blanked in place, segmented ones removed through the SDK's writer).
+fn res_of_output(format: &str, out: &[u8], region: Option<(usize, usize)>) -> Res {
     let (state, codes, report) = match sdk::read(format, out) {
         Ok(r) => {
             let v = sdk::verdict(&r);
@@ -247,9 +249,23 @@ fn res_of_output(format: &str, out: &[u8]) -> Res {
         }
         Err(e) => (format!("Unreadable:{}", error_variant(&e)), vec![], String::new()),
     };
-    let content = match c2pa::verif_hooks::remove_manifest(format, out) {
-        Ok(stripped) => vh::digest(&stripped),
-        Err(e) => vh::digest(&format!("strip-error:{}", error_variant(&e))),
+    let blank = |at: usize, len: usize| {
+        let mut v = out.to_vec();
+        v[at..at + len].iter_mut().for_each(|b| *b = 0);
+        vh::digest(&v)
+    };
+    let content = if let Some((at, len)) = region {
+        blank(at, len)
+    } else {
+        let located = vh::catch(|| sdk::store_of(format, out).ok().and_then(|st| sdk::find_sub(out, &st).map(|p| (p, st.len())))).ok().flatten();
+        match located {
+            Some((at, len)) => blank(at, len),
+            None => match vh::catch(|| c2pa::verif_hooks::remove_manifest(format, out)) {
+                Ok(Ok(stripped)) => vh::digest(&stripped),
+                Ok(Err(e)) => vh::digest(&format!("strip-error:{}", error_variant(&e))),
+                Err(_) => vh::digest(&"strip-panic"),
+            },
+        }
     };
     Res { state, codes, size: out.len(), report, content }
 }
@@ -355,7 +371,7 @@ fn exec(op: &IoOp, src_w: &Wrap, dst_w: &Wrap, selftest: bool) -> Exec {
                 b.set_intent(BuilderIntent::Create(DigitalSourceType::Empty));
                 b.sign(sdk::signer("ed25519").as_ref(), &op.format, &mut s, &mut d)?;
                 drop(d);
-                Ok(res_of_output(&op.format, &dst.contents()))
+                Ok(res_of_output(&op.format, &dst.contents(), None))
             }
             "read" => {
                 let s = wrap(Shared::new(a.to_vec()), src_w, selftest, &stats);
@@ -408,7 +424,7 @@ fn exec(op: &IoOp, src_w: &Wrap, dst_w: &Wrap, selftest: bool) -> Exec {
                     return Err(c2pa::Error::OtherError(format!("harness: embeddable {} != placeholder {}", m.len(), ph.len()).into()));
                 }
                 out[at..at + m.len()].copy_from_slice(&m);
-                Ok(res_of_output(&op.format, &out))
+                Ok(res_of_output(&op.format, &out, Some((at, m.len()))))
             }
             other => Err(c2pa::Error::BadParam(format!("harness: unknown op {other}"))),
         }
@@ -430,7 +446,9 @@ fn reference(op: &IoOp) -> Result<Res, String> {
             if a == b {
                 Ok(a)
             } else {
-                Err(format!("two plain runs differ in {} ({} vs {}) [{}]", a.diff(&b), a.brief(), b.brief(), a.report_diff(&b)))
+                let mut m = format!("two plain runs differ in {} ({} vs {}) [{}]", a.diff(&b), a.brief(), b.brief(), a.report_diff(&b));
+                m.truncate(600);
+                Err(m)
             }
         }
         (Ok(Err(e)), _) | (_, Ok(Err(e))) => Err(format!("plain run failed: {e:?}")),
@@ -457,8 +475,8 @@ struct ChunkCase {
 fn judge_chunk(run: &Run, c: &ChunkCase, selftest: bool) -> CaseResult {
     let want = match reference(&c.op) {
         Ok(r) => r,
-        Err(e) => {
-            run.inconclusive(format!("{}: no reference: {e}", c.op.name()));
+        Err(_) => {
+            run.count("skipped_no_reference");
             return Ok(());
         }
     };
@@ -515,8 +533,8 @@ fn plan_name(p: &FaultPlan) -> String {
 fn judge_fault(run: &Run, c: &FaultCase, selftest: bool) -> CaseResult {
     let want = match reference(&c.op) {
         Ok(r) => r,
-        Err(e) => {
-            run.inconclusive(format!("{}: no reference: {e}", c.op.name()));
+        Err(_) => {
+            run.count("skipped_no_reference");
             return Ok(());
         }
     };
@@ -587,8 +605,17 @@ fn judge_fault(run: &Run, c: &FaultCase, selftest: bool) -> CaseResult {
                 return Ok(());
             }
             let fault = if c.plan.kind == FaultKind::ShortZero { format!("zero-{on}") } else { format!("{on}-error") };
+            // reads / imports: two stages are enough to tell the code paths apart (the I/O of a hash pass starts
+            // before its first callback, so finer phase names would split one cause over several signatures)
+            let stage = if signing {
+                phase.clone()
+            } else if phase.starts_with("Verifying") {
+                "validate".to_string()
+            } else {
+                "load".to_string()
+            };
             Err(Fail::new(
-                format!("C35:{}{label}-{}-{fault}-in-{phase}-hidden-ok-{class}", c.op.kind, c.target),
+                format!("C35:{}{label}-{}-{fault}-in-{stage}-hidden-ok-{class}", c.op.kind, c.target),
                 format!("{what}: the operation returned Ok with {} (differs in {} from the fault-free {}) [{}]", got.brief(), got.diff(&want), want.brief(), got.report_diff(&want)),
             ))
         }
@@ -633,7 +660,7 @@ fn main() {
     vh::quiet_panics();
     let run = Run::from_args("C35", "fault_enumeration");
     let selftest = std::env::var("VERIF_SELFTEST").ok().as_deref() == Some("1");
-    run.set_rule("operations = {sign, read (asset signed by the harness + repository fixtures), add_ingredient_from_stream, placeholder->update_hash_from_stream->sign_embeddable} over the writable fixture formats, always with the correct format hint. (a) every operation with its source / destination / both streams wrapped in Chunky with max piece 1,2,3,7 and a seeded random maximum; (b) a Counting/Faulty dry run gives the fault-free number N of I/O calls (read+write+seek+flush) on the wrapped stream; cases = every k<N (large N: every k<=300 plus a stratified sample and the last 4 calls in quick; every k<=4000 plus a stratified sample in thorough) x {Other, UnexpectedEof, Interrupted, WriteZero, Ok(0), sticky Other, sticky Ok(0)} on the source, the destination or the ingredient / hashed stream. Non-trivial = the fault fired at call index >= 2 (beyond the sniffing read); chunk cases with pieces <= 3 bytes.");
+    run.set_rule("operations = {sign, read (asset signed by the harness + repository fixtures), add_ingredient_from_stream, placeholder->update_hash_from_stream->sign_embeddable} over the writable fixture formats, always with the correct format hint. (a) every operation with its source / destination / both streams wrapped in Chunky with max piece 1,2,3,7 and a seeded random maximum; (b) a Counting/Faulty dry run gives the fault-free number N of I/O calls (read+write+seek+flush) on the wrapped stream; cases = every k<N up to a bound, then one k per stratum of the rest plus the last 4 calls (quick: k<300 + 24 strata for assets <= 300 KB, k<40 + 12 strata for larger ones; thorough: k<4000 + 400 strata, larger assets k<1000 + 200 strata) x {Other, UnexpectedEof, Interrupted, WriteZero, Ok(0), sticky Other, sticky Ok(0)} on the source, the destination or the ingredient / hashed stream. Non-trivial = the fault fired at call index >= 2 (beyond the sniffing read); chunk cases with pieces <= 3 bytes.");
     run.assume("equality with the fault-free result is judged on (validation state + all status codes of the read-back with a plain cursor, cross-run normalised report, output size, output bytes after the SDK's own manifest removal); reads: state + codes + same-bytes report");
     run.assume("a one-shot or sticky Ok(0) from read is an end-of-file, not an error: a differing Ok result is a failure only for reads/imports that are Valid/Trusted; signing the truncated view is recorded, not judged");
     run.assume("the number and order of I/O calls of an operation is deterministic (a planned call that is not reached is counted fault_not_fired and not judged)");
@@ -726,7 +753,8 @@ fn main() {
     ];
     let mut counts = serde_json::Map::new();
     let mut fcases = vec![];
-    let (all_upto, sample) = if quick { (300u64, 24u64) } else { (4000u64, 400u64) };
+    // (every k up to, stratified sample beyond) for assets <= 300 KB and for larger ones
+    let (small_plan, large_plan) = if quick { ((300u64, 24u64), (40u64, 12u64)) } else { ((4000u64, 400u64), (1000u64, 200u64)) };
     let mut planned: Vec<(IoOp, &str, u64)> = vec![];
     for op in ops.iter().filter(|_| run.replay.is_none()) {
         let targets: &[&str] = if op.kind == "sign" { &["source", "dest"] } else { &["source"] };
@@ -748,6 +776,7 @@ fn main() {
     }
     run.extra("fault_free_io_calls", serde_json::Value::Object(counts));
     for (op, t, n) in &planned {
+        let (all_upto, sample) = if asset(&op.file).len() <= 300_000 { small_plan } else { large_plan };
         let ks = ks_for(*n, all_upto, sample, &mut rng);
         if ks.len() as u64 == *n {
             run.count("ops_enumerated_completely");
